@@ -127,13 +127,19 @@ pub fn specs_to_bits(s: &GraphSpecs) -> SpecBits {
 pub struct W(pub u8);
 
 /// 0 = mixed (some NaN, some dyadic), 1 = all weighted (positive dyadic k/4), 2 = all unweighted,
-/// 3 = all weighted, tiny dyadic (k+1)*2^-60, 4 = all weighted, large dyadic (k+1)*2^40
+/// 3 = all weighted, tiny dyadic (k+1)*2^-60, 4 = all weighted, large dyadic (k+1)*2^40,
+/// 5 = all weighted, values one ulp apart (0.3 and its neighbours, 1/3, 1, 1e16, 2.5)
 pub fn weight_of(mode: u8, w: W) -> f64 {
     match mode {
         2 => f64::NAN,
         1 => ((w.0 % 32) as f64 + 1.0) / 4.0,
         3 => ((w.0 % 32) as f64 + 1.0) * (2.0f64).powi(-60),
         4 => ((w.0 % 32) as f64 + 1.0) * (2.0f64).powi(40),
+        // neighbouring floats: a few base values and their immediate successors / predecessors
+        5 => {
+            let base = [0.3f64, 1.0 / 3.0, 1.0, 1e16, 2.5][(w.0 as usize / 3) % 5];
+            f64::from_bits((base.to_bits() as i64 + (w.0 % 3) as i64 - 1) as u64)
+        }
         _ => {
             if w.0 % 4 == 3 {
                 f64::NAN
@@ -398,8 +404,8 @@ pub fn apply(op: &Op, wmode: u8, m: &mut Model, g: &mut G) -> (String, String) {
             let gr = g.add_edge(mk_edge(&u, &v, w));
             (mr.into(), crate::core::res_kind(&gr))
         }
-        Op::AddEdgeTuple(u, v) if matches!(wmode, 1 | 3 | 4) => apply(&Op::AddEdge(*u, *v, W(3)), wmode, m, g),
-        Op::AddEdgeTuples(es) if matches!(wmode, 1 | 3 | 4) => {
+        Op::AddEdgeTuple(u, v) if matches!(wmode, 1 | 3 | 4 | 5) => apply(&Op::AddEdge(*u, *v, W(3)), wmode, m, g),
+        Op::AddEdgeTuples(es) if matches!(wmode, 1 | 3 | 4 | 5) => {
             apply(&Op::AddEdges(es.iter().map(|(u, v)| (*u, *v, W(3))).collect()), wmode, m, g)
         }
         Op::AddEdgeTuple(u, v) => {
